@@ -1,5 +1,5 @@
 ENGINES = [
-    {'name': 'E1-enum', 'path': 'mc/engine_enum.py', 'serves_properties': ['C01', 'C02', 'C04', 'C05', 'C06', 'C12', 'C19'],
+    {'name': 'E1-enum', 'path': 'mc/engine_enum.py', 'serves_properties': ['C01', 'C02', 'C04', 'C05', 'C06', 'C09', 'C12', 'C19'],
      'kind_free_text': 'sharded exhaustive enumeration of a finite input/configuration space of the real code against a reference model'},
     {'name': 'E2-bfs', 'path': 'mc/engine_bfs.py', 'serves_properties': ['C03', 'C04', 'C05'],
      'kind_free_text': 'explicit-state breadth-first search over live implementation objects (state = replayable operation history, canonicalised from the complete vars() of the objects), level-parallel'},
@@ -50,3 +50,9 @@ CHECKS['C19'] = dict(
     technique='exhaustive enumeration of message lists, both file formats and whitespace layouts through real files on tmpfs',
     text='Every message list up to length 4 (5 thorough) over 8 representative messages is written and read back in both formats; every assignment of 8 whitespace separators to the gaps of small plain-text files is read; malformed hex must raise ValueError.',
     note='Payload contents limited to representatives (lengths 0,1,3,300,5000).')
+
+CHECKS['C09'] = dict(
+    engine='E1-enum', category='exploration', design_ref='DESIGN.md 5/C09',
+    technique='exhaustive enumeration of the finite meta attribute domains and boundary payload lengths of the implementation against a reference meta-event codec',
+    text='The complete finite domains (65536 sequence numbers, 256 channel/port values, 30 keys, 256 denominator exponents x {0,1,255}^3, SMPTE limits) and payload lengths at every variable-length-quantity boundary are constructed, encoded (compared byte for byte with a reference codec typed from the SMF specification), decoded with MetaMessage.from_bytes, read from a one-track file and built through assignment; out-of-domain values must raise ValueError/TypeError.',
+    note='set_tempo swept with stride 4096 plus limits; text restricted to latin1; known finding: smpte hours >= 32 (see known_findings.json).')
